@@ -146,7 +146,7 @@ theorem G.subH {c : Cfg} {a : ANode} (g : G c a) (s : List DAAns) : G c (headers
     rw [this] at he'; exact he'
 
 theorem G.subD {c : Cfg} {a : ANode} (g : G c a) (s : List DAAns) : G c (dataIter a s).1 := by
-  obtain ⟨items, rem, pre, hi, hmem⟩ := dataIter_inv a s
+  obtain ⟨items, hi, hmem⟩ := dataIter_iter a s
   have hblk : ∀ k, (dataIter a s).1.n.store.getBlock k = a.n.store.getBlock k := hi.frame.getBlock
   obtain ⟨new, hnew, _⟩ := hi.blobs
   have hd : ∀ e ∈ a.daBlobs, e ∈ (dataIter a s).1.daBlobs := fun e he => by rw [hnew]; exact List.mem_append_right _ he
@@ -164,7 +164,7 @@ theorem G.subD {c : Cfg} {a : ANode} (g : G c a) (s : List DAAns) : G c (dataIte
     rcases List.mem_append.mp he' with h | h
     · right
       obtain ⟨it, hit, e1, _, _, e4⟩ := hall e h
-      obtain ⟨k, b, _, k2, hb, hne, rfl⟩ := hmem it (by rw [hi.split]; exact List.mem_append_left _ hit)
+      obtain ⟨k, b, _, k2, hb, hne, rfl⟩ := hmem it hit
       exact ⟨k, b, by rw [hi.frame.height]; exact k2, by rw [hblk]; exact hb, e1.symm, hne, e4⟩
     · exact Or.inl h
 
@@ -221,7 +221,7 @@ theorem stepA_mono (c : Cfg) (a : ANode) (act : Act) : a.daInc ≤ (stepA c a ac
     show a.daInc ≤ (headersIter a s).1.daInc
     rw [hi.frame.daInc]; exact Nat.le_refl _
   | subD s =>
-    obtain ⟨_, _, _, hi, _⟩ := dataIter_inv a s
+    obtain ⟨_, hi, _⟩ := dataIter_iter a s
     show a.daInc ≤ (dataIter a s).1.daInc
     rw [hi.frame.daInc]; exact Nat.le_refl _
   | incl => exact includerPass_mono _ a []
